@@ -26,28 +26,29 @@ CONSTANTS Calls,       \* sequence of calls (see Store.tla)
           KeepHist
 
 VARIABLES cid, lmode, smode,      \* the configuration picked by Init
-          tgs, wrt, infl, lkh,    \* the Store state: targets, written cells, writes in flight, lock holder
+          tgs, wcn, wrt, infl, lkh,  \* the Store state: targets, write counts, written cells, writes in flight, lock holder
           pcs, lpcs, phs, lds,    \* task program counters, phase, loaded values
           hst, out
-vars == <<cid, lmode, smode, tgs, wrt, infl, lkh, pcs, lpcs, phs, lds, hst, out>>
+vars == <<cid, lmode, smode, tgs, wcn, wrt, infl, lkh, pcs, lpcs, phs, lds, hst, out>>
 
 \* constant tables, evaluated once per call
 Blk == [c \in DOMAIN Calls |-> AllBlocks(Calls[c])]
 Exp == [c \in DOMAIN Calls |-> ExpectedAll(Calls[c])]
+Cov == [c \in DOMAIN Calls |-> CoverAll(Calls[c])]
 
 \* the geometry of every call: block writes never overlap and cover exactly the regions
 ASSUME \A c \in DOMAIN Calls : WellFormed(Calls[c]) /\ BlocksDisjoint(Calls[c]) /\ BlocksCover(Calls[c])
 
-St     == [tg |-> tgs, wr |-> wrt, fl |-> infl, hold |-> lkh]
+St     == [tg |-> tgs, wn |-> wcn, wr |-> wrt, fl |-> infl, hold |-> lkh]
 Tasks  == DOMAIN Blk[cid]
 NB     == Len(Blk[cid])
 W(k)   == [who |-> k, t |-> Blk[cid][k].t, pos |-> Blk[cid][k].pos, val |-> Blk[cid][k].val]
 Locked == lmode # "none"
 LoadsInTask == smode = "lazyret"
-Becomes(s2) == tgs' = s2.tg /\ wrt' = s2.wr /\ infl' = s2.fl /\ lkh' = s2.hold
+Becomes(s2) == tgs' = s2.tg /\ wcn' = s2.wn /\ wrt' = s2.wr /\ infl' = s2.fl /\ lkh' = s2.hold
 
 Init == /\ \E cb \in Combos : cid = cb[1] /\ lmode = cb[2] /\ smode = cb[3]
-        /\ tgs = S0(Calls[cid]).tg /\ wrt = {} /\ infl = {} /\ lkh = 0
+        /\ tgs = S0(Calls[cid]).tg /\ wcn = S0(Calls[cid]).wn /\ wrt = {} /\ infl = {} /\ lkh = 0
         /\ pcs = [k \in DOMAIN Blk[cid] |-> "idle"] /\ lpcs = [k \in DOMAIN Blk[cid] |-> "idle"]
         /\ phs = IF smode \in {"lazy", "lazyret"} THEN "lazy" ELSE "run"
         /\ lds = [k \in DOMAIN Blk[cid] |-> <<>>]
@@ -65,7 +66,7 @@ Log(a, k) ==
 After(k) == IF LoadsInTask THEN "wrote" ELSE IF Locked THEN "wrote" ELSE "done"
 
 Compute == /\ phs = "lazy" /\ phs' = "run"
-           /\ UNCHANGED <<cid, lmode, smode, tgs, wrt, infl, lkh, pcs, lpcs, lds>> /\ Log("compute", 0)
+           /\ UNCHANGED <<cid, lmode, smode, tgs, wcn, wrt, infl, lkh, pcs, lpcs, lds>> /\ Log("compute", 0)
 Start(k) == /\ phs = "run" /\ Locked /\ pcs[k] = "idle" /\ CanAcquire(St)
             /\ Becomes(DoAcquire(St, k)) /\ pcs' = [pcs EXCEPT ![k] = "held"]
             /\ UNCHANGED <<cid, lmode, smode, lpcs, phs, lds>> /\ Log("start", k)
@@ -78,29 +79,29 @@ WriteEnd(k) == /\ pcs[k] = "writing"
 Load(k) == /\ LoadsInTask /\ pcs[k] = "wrote"
            /\ lds' = [lds EXCEPT ![k] = ReadOf(St, W(k).t, W(k).pos)]
            /\ pcs' = [pcs EXCEPT ![k] = IF Locked THEN "read" ELSE "done"]
-           /\ UNCHANGED <<cid, lmode, smode, tgs, wrt, infl, lkh, lpcs, phs>> /\ Log("load", k)
+           /\ UNCHANGED <<cid, lmode, smode, tgs, wcn, wrt, infl, lkh, lpcs, phs>> /\ Log("load", k)
 Finish(k) == /\ Locked /\ pcs[k] = (IF LoadsInTask THEN "read" ELSE "wrote") /\ CanRelease(St, k)
              /\ Becomes(DoRelease(St)) /\ pcs' = [pcs EXCEPT ![k] = "done"]
              /\ UNCHANGED <<cid, lmode, smode, lpcs, phs, lds>> /\ Log("finish", k)
 Return == /\ phs = "run" /\ \A k \in Tasks : pcs[k] = "done"
           /\ phs' = "ret"
-          /\ UNCHANGED <<cid, lmode, smode, tgs, wrt, infl, lkh, pcs, lpcs, lds>> /\ Log("return", 0)
+          /\ UNCHANGED <<cid, lmode, smode, tgs, wcn, wrt, infl, lkh, pcs, lpcs, lds>> /\ Log("return", 0)
 \* second phase of "nowret": the caller computes the returned arrays
 Compute2 == /\ smode = "nowret" /\ phs = "ret" /\ phs' = "run2"
-            /\ UNCHANGED <<cid, lmode, smode, tgs, wrt, infl, lkh, pcs, lpcs, lds>> /\ Log("compute2", 0)
+            /\ UNCHANGED <<cid, lmode, smode, tgs, wcn, wrt, infl, lkh, pcs, lpcs, lds>> /\ Log("compute2", 0)
 LStart(k) == /\ phs = "run2" /\ Locked /\ lpcs[k] = "idle" /\ CanAcquire(St)
              /\ Becomes(DoAcquire(St, NB + k)) /\ lpcs' = [lpcs EXCEPT ![k] = "held"]
              /\ UNCHANGED <<cid, lmode, smode, pcs, phs, lds>> /\ Log("lstart", k)
 LRead(k) == /\ phs = "run2" /\ lpcs[k] = (IF Locked THEN "held" ELSE "idle")
             /\ lds' = [lds EXCEPT ![k] = ReadOf(St, W(k).t, W(k).pos)]
             /\ lpcs' = [lpcs EXCEPT ![k] = IF Locked THEN "read" ELSE "done"]
-            /\ UNCHANGED <<cid, lmode, smode, tgs, wrt, infl, lkh, pcs, phs>> /\ Log("lread", k)
+            /\ UNCHANGED <<cid, lmode, smode, tgs, wcn, wrt, infl, lkh, pcs, phs>> /\ Log("lread", k)
 LFinish(k) == /\ Locked /\ lpcs[k] = "read" /\ CanRelease(St, NB + k)
               /\ Becomes(DoRelease(St)) /\ lpcs' = [lpcs EXCEPT ![k] = "done"]
               /\ UNCHANGED <<cid, lmode, smode, pcs, phs, lds>> /\ Log("lfinish", k)
 End == /\ phs = "run2" /\ \A k \in Tasks : lpcs[k] = "done"
        /\ phs' = "end"
-       /\ UNCHANGED <<cid, lmode, smode, tgs, wrt, infl, lkh, pcs, lpcs, lds>> /\ Log("end", 0)
+       /\ UNCHANGED <<cid, lmode, smode, tgs, wcn, wrt, infl, lkh, pcs, lpcs, lds>> /\ Log("end", 0)
 Done == Terminal /\ UNCHANGED vars
 
 AStart      == \E k \in Tasks : Start(k)
@@ -122,8 +123,9 @@ Spec == Init /\ [][Next]_vars /\ WF_vars(Next)
 \* alone if a lock is in force, and by the lock holder
 WritesRespectContract ==
   \A k \in Tasks : (phs = "run" /\ pcs[k] = (IF Locked THEN "held" ELSE "idle"))
-                      => WriteBeginBad(Exp[cid], lmode, St, W(k)) = {}
-NoOverlap          == NoOverlapIn(St)
+                      => WriteBeginBad(Exp[cid], Cov[cid], lmode, St, W(k)) = {}
+NoOverlap          == NoOverlapIn(Cov[cid], St)
+WriteCounts        == WriteCountsIn(Cov[cid], St)
 MutualExclusion    == MutexIn(lmode, St)
 OutsideUntouched   == OutsideUntouchedIn(Exp[cid], St)
 WrittenCorrect     == WrittenCorrectIn(Exp[cid], St)
